@@ -125,6 +125,45 @@ for k in list(PENDING):
     if k in CHECKS:
         del PENDING[k]
 
+CHECKS.update({
+    "C14": dict(level="model_checking", design="§6 C14",
+                text="Every emitted file of every generated program, on all three backends, is judged statically by spec/AsmWF.tla: "
+                     "LabelsUnique, TargetsDefined, NoSymbolClash, AllEncodable (operand ranges of every printed form), TableStride. "
+                     "x86-64 files are additionally assembled by GNU as, whose verdict must agree with the specification in both "
+                     "directions. Adaptive adversarial naming: user definitions/types named exactly like generated labels.",
+                note="No AArch64/RISC-V assembler installed: their operand ranges are from the architecture manual.",
+                technique="TLA+ static well-formedness predicates evaluated by TLC on tokenised real output + GNU as cross-check"),
+    "C15": dict(level="model_checking", design="§6 C15",
+                text="Three-way agreement, judged in TLC: construction label = verdict of the declarative typing relation "
+                     "spec/FunTyping.tla (else tool error) = verdict of the real type checker (else violation), on well-typed-by-"
+                     "construction programs, every single certainly-ill-typed edit of them (21 classes x sites) and the repository's "
+                     "success/fail suites.",
+                note="spec/FunTyping.tla is an independent transcription of the typing rules over the parsed syntax tree.",
+                technique="self-contained function transcribed into TLA+ (typing relation) used as oracle for model-based tests, TLC"),
+    "C16": dict(level="exploration", design="§6 C16",
+                text="Token sequences of every term form nested in every operand position (depth 2) are derived by TLC from the "
+                     "generative grammar spec/FunGrammar.tla (which models the lexer's zero-test fusion); each is rendered by the real "
+                     "printer at sampled/all width x indent pairs, reparsed, compared as trees, printed again; in-place mode of the real "
+                     "binary on scratch copies; records judged by spec/TraceFmt.tla.",
+                note="The layout algorithm of the pretty crate is not modelled, only its effect (non-blank characters, tree, fixpoint).",
+                technique="TLA+ generative grammar enumerated by TLC, replayed into the real parser/printer, records validated in TLC"),
+    "C18": dict(level="exploration", design="§6 C18",
+                text="All single (thorough: windowed double) token mutations of three base programs are enumerated by TLC from "
+                     "spec/Mutate.tla; random byte-level edits, extreme shapes and non-UTF-8 files are added; every replay's stage-event "
+                     "trace is validated by spec/TracePipeline.tla, where a panic is in no outcome alphabet; accepted programs with a "
+                     "valid main continue through all backends.",
+                note="The byte-level space is sampled, not enumerated.",
+                technique="TLA+ mutation model enumerated by TLC + trace validation against the pipeline specification"),
+    "C19": dict(level="exploration", design="§6 C19",
+                text="Six scalable families at depth 4, 8, 12, 16 through the real pipeline; spec/Sizes.tla evaluates Growth "
+                     "(s(16) <= 10 s(8), s(12) <= 40 s(4)) and Quadratic on the measured node / instruction counts of every stage.",
+                note="Weakest claim: TLC only evaluates the bound on measurements.",
+                technique="measurement of real artifacts judged by a TLA+ bound predicate in TLC"),
+})
+for k in list(PENDING):
+    if k in CHECKS:
+        del PENDING[k]
+
 
 def main():
     commits = subprocess.run(["git", "-C", "/repo", "log", "--format=%h %s"], stdout=subprocess.PIPE, text=True).stdout.splitlines()
